@@ -29,6 +29,9 @@ pub enum DirFault {
 
 #[derive(Clone, Serialize, Deserialize)]
 pub struct DirPlan {
+    /// the target directory already holds an earlier, longer version of the same files (a re-write)
+    #[serde(default)]
+    pub rewrite: bool,
     /// order in which the files are (re-)created in the directory that is read (0 = as written)
     pub create_order: u64,
     pub fault: Option<DirFault>,
@@ -145,7 +148,7 @@ impl Engine for C12 {
             p.read_io = IoPlan::gen_legal(&mut s);
         }
         if s.chance(35) {
-            p.dir = Some(DirPlan { create_order: if s.chance(25) { 0 } else { s.next() | 1 }, fault: None });
+            p.dir = Some(DirPlan { rewrite: s.chance(30), create_order: if s.chance(25) { 0 } else { s.next() | 1 }, fault: None });
         }
         if f.chance(55) {
             match f.below(3) {
@@ -161,7 +164,7 @@ impl Engine for C12 {
                     _ => Fault::EioAtOffset { off: f.below(text_len + 1) },
                 }),
                 _ => {
-                    let d = p.dir.get_or_insert(DirPlan { create_order: f.next() | 1, fault: None });
+                    let d = p.dir.get_or_insert(DirPlan { rewrite: false, create_order: f.next() | 1, fault: None });
                     let file = f.usize(nfiles.max(1));
                     d.fault = Some(match f.below(6) {
                         0 | 1 => DirFault::Crash { files: f.range(1, nfiles.max(1) as u64) as usize, at: f.below(400) },
@@ -321,6 +324,7 @@ impl Engine for C12 {
                                     out.push(Violation::new("T2", "reader-ok-with-wrong-data", format!("read.{path}"), d));
                                 }
                             }
+                            Err(e) if e.starts_with(UNDECODABLE) => out.push(Violation::new("T2", "reader-ok-on-undecodable-input", "read", format!("the delivered bytes are not UTF-8 text ({e}) but read_into returned Ok"))),
                             Err(_) => st.probe("lenient_accept"),
                         }
                     }
@@ -343,6 +347,16 @@ impl Engine for C12 {
             let w1 = d.join("w1");
             // the target directory exists and is empty (an empty set creates no file, hence no directory)
             std::fs::create_dir_all(&w1).expect("simdir");
+            if dp.rewrite {
+                // an earlier write of a larger set left the same files behind, each longer than what is written now
+                for (f, t) in &per_file {
+                    let mut old = t.clone();
+                    old.extend_from_slice(b"\tFIELD staleField staleName I\n\tMETHOD staleMethod ()V\n\t\tCOMMENT left over from the earlier write\n");
+                    d.create(&format!("w1/{f}.mapping"), &old);
+                }
+                st.probe("dir_rewrite_over_longer_files");
+                st.nontrivial = true;
+            }
             match no_panic(|| quill::enigma_dir::write(&qa, &w1)) {
                 Err(pm) => out.push(Violation::new("T0", "panic", format!("dir-write:{}", panic_path(&pm)), pm)),
                 Ok(Err(e)) => out.push(Violation::new("T0", "refused-wellformed", "dir-write", format!("{e:#}"))),
@@ -473,6 +487,7 @@ impl Engine for C12 {
                                             out.push(Violation::new("T2", "reader-ok-with-wrong-data", format!("dir-read.{path}"), det));
                                         }
                                     }
+                                    Err(e) if e.contains(UNDECODABLE) => out.push(Violation::new("T2", "reader-ok-on-undecodable-input", "dir-read", format!("a mapping file is not UTF-8 text ({e}) but the directory read returned Ok"))),
                                     Err(_) => st.probe("lenient_accept"),
                                 }
                             }
@@ -536,6 +551,11 @@ impl Engine for C12 {
                 q.dir.as_mut().unwrap().create_order = 0;
                 c.push(q);
             }
+            if d.rewrite {
+                let mut q = p.clone();
+                q.dir.as_mut().unwrap().rewrite = false;
+                c.push(q);
+            }
         }
         if p.order_a != 0 {
             let mut q = p.clone();
@@ -559,7 +579,7 @@ impl Engine for C12 {
         vec![
             "names contain no Java whitespace and no '#'; comments contain no TAB/CR and no trailing blanks per line (Enigma re-joins comment words with single blanks)".into(),
             "no two root classes share a file name (target name, or source name when there is no target): the format cannot carry that".into(),
-            "the target directory is empty before enigma_dir::write (the CLI removes it first)".into(),
+            "before enigma_dir::write the target directory is empty or holds earlier versions of the same files (files of classes that no longer exist are outside the property: the CLI removes the directory first)".into(),
             "a directory read that succeeds on a damaged tree is compared with the reference reading of the bytes on disk; reference Err + real Ok is counted (lenient_accept), not flagged".into(),
         ]
     }
@@ -567,6 +587,6 @@ impl Engine for C12 {
         json!({"real": ["quill::enigma_file::{write_all, write_one, read_into, read_file_into}", "quill::enigma_dir::{write, read}", "walkdir", "std::fs"], "stub": ["byte source/sink (SimReader/SimWriter)", "directory content, creation order, crash point and damage (SimDir on tmpfs)"], "reference": ["refmap::{read_enigma_into, write_enigma_files, enigma_roots}"]})
     }
     fn expected_probes(&self) -> Vec<&'static str> {
-        vec!["orphan_inner_class", "nesting_depth_2plus", "dir_runs", "dir_creation_order_drawn", "dir_read_err_under_fault", "dir_read_ok_on_damaged_tree_agrees", "healed_and_reread", "write_err_under_fault", "read_err_under_fault", "io.eintr"]
+        vec!["dir_rewrite_over_longer_files", "orphan_inner_class", "nesting_depth_2plus", "dir_runs", "dir_creation_order_drawn", "dir_read_err_under_fault", "dir_read_ok_on_damaged_tree_agrees", "healed_and_reread", "write_err_under_fault", "read_err_under_fault", "io.eintr"]
     }
 }
